@@ -24,6 +24,7 @@ func init() {
 			{"C20.filters", "verify/prune extension filters follow the option", 10, c16FormatFilter},
 			{"C20.prune-own-format", "prune removes objects named from the parsed id (the store's own format), only on a keep-set miss", 4, c16KeepSet},
 			{"C20.raw-storage", "a chunk's stored bytes are passed on unconverted only where the converters match", 1, func(c *Ctx) { c.rawStorageGuarded() }},
+			{"C20.converters-equal", "Converters.equal answers true only for lists of equal length (it licenses passing stored bytes on)", 2, c14ConvertersEqual},
 			{"C20.compress-api", "Compress/Decompress present with the expected signatures", 2, c20CompressAPI},
 		},
 	})
@@ -226,5 +227,40 @@ func c20CompressAPI(c *Ctx) {
 		}
 		okSig := sig.Params().Len() == want && sig.Results().Len() == 2 && isErrorType(sig.Results().At(1).Type())
 		c.verdict(okSig, name+":signature", obj.Pos(), fmt.Sprintf("%s%s in %s", name, strings.TrimPrefix(sig.String(), "func"), c.Config), "unexpected signature "+sig.String())
+	}
+	// the shared zstd encoder/decoder are built without options: every option of the decoder
+	// (WithDecoderMaxMemory, WithDecoderMaxWindow, ...) makes it refuse frames that are valid
+	// zstd and that casync or an older desync wrote; encoder options change what others must accept.
+	var fns []*ssa.Function
+	fns = append(fns, c.libFuncs()...)
+	if init := c.LibSSA.Func("init"); init != nil {
+		dup := false
+		for _, f := range fns {
+			if f == init {
+				dup = true
+			}
+		}
+		if !dup {
+			fns = append(fns, init)
+		}
+	}
+	ctors := 0
+	for _, fn := range fns {
+		for _, call := range calls(fn, func(n string) bool {
+			return strings.HasSuffix(n, "compress/zstd.NewReader") || strings.HasSuffix(n, "compress/zstd.NewWriter")
+		}) {
+			ctors++
+			a := call.Common().Args
+			opts := a[len(a)-1]
+			k, isConst := opts.(*ssa.Const)
+			c.verdict(isConst && k.Value == nil, "zstd:"+callee(call)+":options", call.Pos(), "constructed without options",
+				callee(call)+" is given options: a limited or re-parameterised codec refuses or produces frames that the other implementations (casync, older desync, the datadog build) do not agree on")
+		}
+	}
+	if strings.Contains(c.Config, "datadog") {
+		return
+	}
+	if ctors < 2 {
+		c.bad("zstd:constructors", token.NoPos, "found %d zstd constructor call(s), expected the shared encoder and decoder", ctors)
 	}
 }
